@@ -288,11 +288,14 @@ class Session:
             raise HarnessError("pristine replay failed inside the harness:\n%s" % ans)
         return st, ans
 
-    def check_pool_untouched(self, step_i: int, op: str, when: str) -> None:
+    def check_pool_untouched(self, step_i: int, op: str, when: str, after_error: bool = False) -> None:
         for slot in sorted(self.pool):
             now = cn.canon(self.pool[slot])
             if now != self.snap[slot]:
                 self.violate(step_i, op, "O1" if not when.startswith("vandal") else "O3b", {"what": "pool member %s changed %s" % (slot, when), "before": self.snap[slot], "after": now}, "target=pool " + when)
+                if after_error and "E2" in self.oracles:
+                    # C14: "an error leaves all operands usable" — the failing call changed a contract / list it was given (or another pool member)
+                    self.violate(step_i, op, "E2", {"what": "pool member %s changed by a call that raised" % slot, "before": self.snap[slot], "after": now}, "operand changed by a failing call")
                 self.snap[slot] = now  # report once
 
     def check_modstate(self, step_i: int, op: str, when: str) -> None:
@@ -421,10 +424,12 @@ class Session:
 
         # ---- O1 / O2: operands and module state untouched, returning or raising, faulted or not
         if "O1" in O:
-            self.check_pool_untouched(i, name, "by the call")
+            self.check_pool_untouched(i, name, "by the call", after_error=(out1[0] == "exc"))
             for k, a in step["args"].items():
                 if "lit" in a and cn.canon(live[k]) != a["lit"]:
                     self.violate(i, name, "O1", {"what": "argument %s changed by the call" % k, "before": a["lit"], "after": cn.canon(live[k])}, "target=arg:" + k)
+                    if out1[0] == "exc" and "E2" in O:
+                        self.violate(i, name, "E2", {"what": "argument %s changed by a call that raised" % k}, "argument changed by a failing call")
         if "O2" in O:
             self.check_modstate(i, name, "by the call")
             if name in PARSE_OPS:
@@ -555,7 +560,8 @@ class Session:
             for f in follow:
                 out, _r, _f = self.one_call(f, {"self": obj}, None, None)
                 self.count("E2_followups")
-                st, ans = self.pristine({"kind": "call", "op": f, "args": {"self": self.snap[slot]}, "files": {}, "clock": self.plan.get("clock")})
+                # compared with the same follow-up on the operand AS IT WAS BEFORE the failing call
+                st, ans = self.pristine({"kind": "call", "op": f, "args": {"self": can[k]}, "files": {}, "clock": self.plan.get("clock")})
                 if st != "ok":
                     continue
                 same = ans[0] == out[0] and (ans == out if out[0] == "ok" else ans[1]["cls"] == out[1]["cls"])
